@@ -13,19 +13,22 @@ void print_i64(int64_t value) {
 
   bool negative = false;
 
+  // the magnitude is computed in unsigned arithmetic, so that INT64_MIN is handled, too
+  uint64_t magnitude = (uint64_t)value;
+
   if (value < 0) {
     negative = true;
-    value = -value;
+    magnitude = 0 - magnitude;
   }
 
-  int64_t prev_value;
+  uint64_t prev_value;
 
   do {
-    prev_value = value;
-    value /= 10;
+    prev_value = magnitude;
+    magnitude /= 10;
     start--;
-    *start = '0' + (prev_value - value * 10);
-  } while (value);
+    *start = '0' + (prev_value - magnitude * 10);
+  } while (magnitude);
 
   if (negative) {
     start--;
@@ -42,19 +45,22 @@ void println_i64(int64_t value) {
 
   bool negative = false;
 
+  // the magnitude is computed in unsigned arithmetic, so that INT64_MIN is handled, too
+  uint64_t magnitude = (uint64_t)value;
+
   if (value < 0) {
     negative = true;
-    value = -value;
+    magnitude = 0 - magnitude;
   }
 
-  int64_t prev_value;
+  uint64_t prev_value;
 
   do {
-    prev_value = value;
-    value /= 10;
+    prev_value = magnitude;
+    magnitude /= 10;
     start--;
-    *start = '0' + (prev_value - value * 10);
-  } while (value);
+    *start = '0' + (prev_value - magnitude * 10);
+  } while (magnitude);
 
   if (negative) {
     start--;
